@@ -661,6 +661,13 @@ struct ConvertOptions {
     in_calc: bool,
 }
 
+/// Functions whose arguments are calc sums: `+` and `-` need whitespace on both sides.
+fn is_math_function(name: &str) -> bool {
+    ["calc", "min", "max", "clamp"]
+        .iter()
+        .any(|x| name.eq_ignore_ascii_case(x))
+}
+
 fn convert_rpx_in_block(
     input: &mut StepParser,
     ss: &mut StyleSheetTransformer,
@@ -685,6 +692,11 @@ fn convert_rpx_in_block(
                     input.next_including_whitespace()?
                 };
                 match &*next {
+                    Token::ParenthesisBlock if in_calc => {
+                        let close = ss.append_nested_block(next.clone(), input);
+                        convert_rpx_in_block(input, ss, Some(ConvertOptions { in_calc: true }));
+                        ss.append_nested_block_close(close, input);
+                    }
                     Token::CurlyBracketBlock
                     | Token::SquareBracketBlock
                     | Token::ParenthesisBlock => {
@@ -694,7 +706,7 @@ fn convert_rpx_in_block(
                     }
                     Token::Function(func) => {
                         let func: &str = func;
-                        let config = if func == "calc" {
+                        let config = if is_math_function(func) {
                             Some(ConvertOptions { in_calc: true })
                         } else {
                             None
